@@ -15,6 +15,7 @@ import (
 	"bufio"
 	"context"
 	"fmt"
+	"net"
 	"net/http"
 	"net/http/httptest"
 	"net/url"
@@ -604,6 +605,18 @@ type result struct {
 	anomaly bool
 }
 
+var nextPort int64 = int64(20000 + (os.Getpid()*97)%10000)
+
+func listen() net.Listener {
+	for try := 0; try < 400; try++ {
+		p := 20000 + int(atomic.AddInt64(&nextPort, 1)%12000)
+		if l, err := net.Listen("tcp", fmt.Sprintf("127.0.0.1:%d", p)); err == nil {
+			return l
+		}
+	}
+	return nil
+}
+
 // heartbeat: a goroutine that sleeps 5 ms at a time and notes when it woke up much too late. A
 // time-dependent run during which that happened says nothing about the connector (the process was
 // starved of CPU) and is discarded.
@@ -649,7 +662,12 @@ func runOnce(c tcase) (res result) {
 	started := time.Now()
 	pinTimeout := 30 * time.Second
 	defer func() {
-		if timing && starvedSince(started, pinTimeout/4) {
+		// the whole process stood still (CPU starvation, a paused VM): the run says nothing
+		by := pinTimeout / 4
+		if !timing {
+			by = time.Second
+		}
+		if starvedSince(started, by) {
 			res.anomaly = true
 		}
 	}()
@@ -673,7 +691,16 @@ func runOnce(c tcase) (res result) {
 	for k := 0; k < c.norig; k++ {
 		d.origins = append(d.origins, originAddr(k))
 	}
-	srv := httptest.NewServer(d)
+	// own listener outside the kernel's ephemeral range: thousands of short-lived loopback
+	// connections per minute otherwise leave no port for a fresh listener
+	ln := listen()
+	if ln == nil {
+		return result{out: "# inconclusive no listener port"}
+	}
+	srv := httptest.NewUnstartedServer(d)
+	srv.Listener.Close()
+	srv.Listener = ln
+	srv.Start()
 	closed := false
 	shut := func() {
 		if closed {
@@ -808,7 +835,23 @@ var timingRuns, discardedRuns int64
 // run executes a case; time-dependent cases are repeated until two runs agree.
 func run(c tcase) string {
 	if !c.timing() {
-		r := runOnce(c)
+		// deterministic conversation: one run, unless the process stood still during it or the call
+		// did not come back (re-run before reporting)
+		var r result
+		for try := 0; try < 3; try++ {
+			r = runOnce(c)
+			if r.anomaly {
+				atomic.AddInt64(&discardedRuns, 1)
+				continue
+			}
+			if strings.HasPrefix(r.out, "hang") || strings.HasPrefix(r.out, "errctx") || strings.HasPrefix(r.out, "#") {
+				continue
+			}
+			break
+		}
+		if r.anomaly {
+			return "# inconclusive starved " + c.input()
+		}
 		if strings.HasPrefix(r.out, "#") {
 			return r.out
 		}
